@@ -3,6 +3,9 @@ package worlds
 import (
 	"encoding/hex"
 	"fmt"
+	"os"
+	"strings"
+	"sync"
 	"time"
 
 	"verif/peers"
@@ -48,6 +51,9 @@ type Proxy struct {
 	codec        peers.XCodec
 	clients      []*peers.XClient
 	ups          []*peers.XUpstream
+	h1clients    []*peers.H1Client
+	h1ups        []*peers.H1Upstream
+	dialMu       sync.Mutex
 	hostAddrs    []string
 	lisAddr      string
 	hostMode     map[string]int // 0 accept, 1 refuse, 2 blackhole
@@ -66,7 +72,7 @@ func pickFrom[T any](ch *sim.Choices, stream, label string, opts []T) T {
 
 // DrawProxyParams draws the parameters for property prop.
 func DrawProxyParams(ch *sim.Choices, prop string) ProxyParams {
-	p := ProxyParams{Proto: "bolt"}
+	p := ProxyParams{Proto: pickFrom(ch, "params", "proto", protoChoices(prop))}
 	p.NConns = 1 + ch.Pick("params", "nconns", 3)
 	p.ReqsPerConn = 1 + ch.Pick("params", "reqs", 6)
 	p.NHosts = 1 + ch.Pick("params", "nhosts", 3)
@@ -93,6 +99,20 @@ func DrawProxyParams(ch *sim.Choices, prop string) ProxyParams {
 	}
 	return p
 }
+
+// protoChoices lists the protocols a property's arm draws from.
+func protoChoices(prop string) []string {
+	if v := os.Getenv("VERIF_PROTO"); v != "" {
+		return []string{v}
+	}
+	switch prop {
+	case "C09":
+		return []string{"http1"}
+	}
+	return []string{"bolt", "http1"}
+}
+
+func isX(proto string) bool { return proto != "http1" && proto != "http2" }
 
 func hostAddr(i int) string { return fmt.Sprintf("10.1.0.%d:9000", i+1) }
 
@@ -138,15 +158,15 @@ func (w *Proxy) buildConfig() []byte {
 		route["retry_policy"] = rp
 	}
 	w.lisAddr = "127.0.0.1:2045"
+	pcfg := J{"downstream_protocol": "X", "upstream_protocol": "X", "router_config_name": "r0", "extend_config": J{"sub_protocol": p.Proto}}
+	match := J{"headers": []J{{"name": "service", "value": ".*", "regex": true}}}
+	if p.Proto == "http1" {
+		pcfg = J{"downstream_protocol": "Http1", "upstream_protocol": "Http1", "router_config_name": "r0"}
+		match = J{"prefix": "/"}
+	}
 	lis := J{
 		"name": "l0", "address": w.lisAddr, "bind_port": true,
-		"filter_chains": []J{{"filters": []J{{"type": "proxy", "config": J{
-			"downstream_protocol": "X", "upstream_protocol": "X", "router_config_name": "r0",
-			"extend_config": J{"sub_protocol": p.Proto},
-		}}}}},
-	}
-	if p.Proto == "http1" || p.Proto == "http2" {
-		panic("http in xproxy")
+		"filter_chains": []J{{"filters": []J{{"type": "proxy", "config": pcfg}}}},
 	}
 	if p.ReadBuf > 0 {
 		lis["default_read_buffer_size"] = p.ReadBuf
@@ -158,7 +178,7 @@ func (w *Proxy) buildConfig() []byte {
 			"listeners": []J{lis},
 			"routers": []J{{"router_config_name": "r0", "virtual_hosts": []J{{
 				"name": "vh", "domains": []string{"*"},
-				"routers": []J{{"match": J{"headers": []J{{"name": "service", "value": ".*", "regex": true}}}, "route": route}},
+				"routers": []J{{"match": match, "route": route}},
 			}}}},
 		}},
 		"cluster_manager": J{"clusters": []J{cluster}},
@@ -195,6 +215,13 @@ func (w *Proxy) onDial(addr string) (sim.DialDecision, sim.Peer, string) {
 		return sim.DialRefuse, nil, ""
 	case 2:
 		return sim.DialBlackhole, nil, ""
+	}
+	w.dialMu.Lock()
+	defer w.dialMu.Unlock()
+	if w.P.Proto == "http1" {
+		u := &peers.H1Upstream{S: w.S, H: w.H, Host: addr, ReplyBuilder: w.h1ReplyBuilder}
+		w.h1ups = append(w.h1ups, u)
+		return sim.DialAccept, u, addr
 	}
 	u := &peers.XUpstream{S: w.S, H: w.H, Codec: w.codec, Host: addr, ReplyBuilder: w.replyBuilder}
 	w.ups = append(w.ups, u)
@@ -294,6 +321,121 @@ func (w *Proxy) Setup() error {
 			}
 		}
 	}
+	if p.Proto == "http1" {
+		w.setupH1Clients()
+	} else {
+		w.setupXClients()
+	}
+	s.Quiesce = append(s.Quiesce, w.quiescent)
+	// heartbeat: make sure the scheduler loop (and with it quiescent()) runs at
+	// least every 5 s of simulated time even if the system under test is silent
+	var hb func()
+	hb = func() {
+		if !w.finished {
+			s.After(5*time.Second, "hb:wait", hb)
+		}
+	}
+	s.After(5*time.Second, "hb:wait", hb)
+	s.Horizon = 40 * time.Minute
+	return nil
+}
+
+// bound is the liveness bound (C03) for a request, from the configuration only.
+func (w *Proxy) effGlobal(r *peers.ReqRec) time.Duration {
+	g := 60 * time.Second
+	if w.P.GlobalMs > 0 {
+		g = time.Duration(w.P.GlobalMs) * time.Millisecond
+	}
+	if v := r.Extra["ptimeout"]; v != "" && v != "0" {
+		var ms int
+		fmt.Sscan(v, &ms)
+		g = time.Duration(ms) * time.Millisecond
+	}
+	return g
+}
+
+func (w *Proxy) bound(r *peers.ReqRec) time.Duration {
+	ct := 10 * time.Second
+	if w.P.ConnTimeoutS > 0 {
+		ct = time.Duration(w.P.ConnTimeoutS) * time.Second
+	}
+	attempts := 1 + max(3, w.P.NumRetries)
+	return 2*(time.Duration(attempts)*(ct+time.Second)+w.effGlobal(r)) + 5*time.Second
+}
+
+func (w *Proxy) resolved(r *peers.ReqRec) bool {
+	if r.Queued {
+		return false
+	}
+	return r.Oneway || len(r.Replies) > 0 || r.ClientLeftAt > 0 || r.ConnClosedAt > 0 || r.ConnID == 0 || r.Dropped
+}
+
+func (w *Proxy) quiescent() {
+	if w.finalSet {
+		return
+	}
+	now := w.S.Now()
+	if now < w.lastSend || w.sendsPending > 0 {
+		return
+	}
+	all := true
+	maxB := w.lastSend + time.Second
+	for _, r := range w.H.Reqs {
+		if !w.resolved(r) {
+			all = false
+		}
+		if r.SentAt > 0 {
+			if b := r.SentAt + w.bound(r); b > maxB {
+				maxB = b
+			}
+		}
+	}
+	if all || now >= maxB {
+		w.finalSet = true
+		// settle: long enough for every timer of MOSN related to these requests to have fired
+		settle := 70 * time.Second
+		w.S.After(settle, "final", func() { w.final() })
+	}
+}
+
+func (w *Proxy) final() {
+	w.finished = true
+	if w.N.DialsRefused > 0 {
+		w.S.Faults["connect_refused"] += w.N.DialsRefused
+	}
+	if w.N.DialsBlackholed > 0 {
+		w.S.Faults["connect_blackhole"] += w.N.DialsBlackholed
+	}
+	w.checkAll()
+}
+
+func (w *Proxy) Done() bool { return w.finished }
+
+// Nontrivial: at least two requests overlapped in time or a fault fired.
+func (w *Proxy) Nontrivial() bool {
+	for _, n := range w.S.Faults {
+		if n > 0 {
+			return true
+		}
+	}
+	for i, a := range w.H.Reqs {
+		for _, b := range w.H.Reqs[i+1:] {
+			if a.SentAt == 0 || b.SentAt == 0 || len(a.Replies) == 0 || len(b.Replies) == 0 {
+				continue
+			}
+			if a.SentAt <= b.Replies[0].At && b.SentAt <= a.Replies[0].At {
+				return true
+			}
+		}
+	}
+	return false
+}
+
+// XSites are the exploration yield points in /repo (build tag verif).
+var XSites = []string{"x:proxy.timer.global.cas", "x:proxy.timer.pertry.cas", "x:proxy.upstream.onreceive.cas"}
+
+func (w *Proxy) setupXClients() {
+	s, ch, p := w.S, w.S.Ch, w.P
 	reqIdx := 0
 	for ci := 0; ci < p.NConns; ci++ {
 		cl := peers.NewXClient(s, w.H, w.codec, fmt.Sprintf("cl%d", ci))
@@ -357,107 +499,90 @@ func (w *Proxy) Setup() error {
 			s.At(lt, "leave:"+cl.Name, func() { s.Fault("client_leaves"); cl.Leave(rst) })
 		}
 	}
-	s.Quiesce = append(s.Quiesce, w.quiescent)
-	// wake the scheduler when the liveness bound of the last request expires, even
-	// if the system under test has gone completely silent by then
-	var dl time.Duration
-	for _, r := range w.H.Reqs {
-		if b := w.lastSend + w.bound(r) + time.Second; b > dl {
-			dl = b
-		}
-	}
-	s.At(dl, "deadline", func() {})
-	if s.Horizon < dl+3*time.Minute {
-		s.Horizon = dl + 3*time.Minute
-	}
-	return nil
 }
 
-// bound is the liveness bound (C03) for a request, from the configuration only.
-func (w *Proxy) effGlobal(r *peers.ReqRec) time.Duration {
-	g := 60 * time.Second
-	if w.P.GlobalMs > 0 {
-		g = time.Duration(w.P.GlobalMs) * time.Millisecond
+var h1Targets = []string{"/", "/a/b", "/a//b", "/a/../b", "/%41%2Fb", "/a%20b", "/*", "/a?x=1&y=2", "/a?", "/a?x=%2F%20&y=", "/a;p=1", "/~u/", "/a+b", "/A/B/c.html?q=%E4%BD%A0", "/a/./b/", "/%7Euser", "/a?x=1?y=2"}
+
+func (w *Proxy) h1ReplyBuilder(u *peers.H1Upstream, r *peers.ReqRec, up *peers.UpRec) *peers.H1Msg {
+	m := &peers.H1Msg{Status: 200, Reason: "OK"}
+	if up.Act.Err {
+		m.Status, m.Reason = 500, "Internal Server Error"
 	}
-	if v := r.Extra["ptimeout"]; v != "" && v != "0" {
-		var ms int
-		fmt.Sscan(v, &ms)
-		g = time.Duration(ms) * time.Millisecond
+	m.Headers = []peers.KV{{K: "X-Rtok", V: r.Token}, {K: "X-Host", V: u.Host}, {K: "X-Att", V: fmt.Sprint(len(r.Upstream))}, {K: "Content-Type", V: "application/x-verif"}}
+	n := len(r.Frame) % 97
+	body := append([]byte(r.Token), make([]byte, n)...)
+	for i := 0; i < n; i++ {
+		body[len(r.Token)+i] = byte('a' + (i*7+len(r.Frame))%26)
 	}
-	return g
+	m.Body = body
+	m.Chunked = len(r.Frame)%5 == 0
+	return m
 }
 
-func (w *Proxy) bound(r *peers.ReqRec) time.Duration {
-	ct := 10 * time.Second
-	if w.P.ConnTimeoutS > 0 {
-		ct = time.Duration(w.P.ConnTimeoutS) * time.Second
-	}
-	attempts := 1 + max(3, w.P.NumRetries)
-	return 2*(time.Duration(attempts)*(ct+time.Second)+w.effGlobal(r)) + 5*time.Second
-}
-
-func (w *Proxy) resolved(r *peers.ReqRec) bool {
-	return r.Oneway || len(r.Replies) > 0 || r.ClientLeftAt > 0 || r.ConnClosedAt > 0 || r.ConnID == 0
-}
-
-func (w *Proxy) quiescent() {
-	if w.finalSet {
-		return
-	}
-	now := w.S.Now()
-	if now < w.lastSend || w.sendsPending > 0 {
-		return
-	}
-	all := true
-	var maxB time.Duration
-	for _, r := range w.H.Reqs {
-		if !w.resolved(r) {
-			all = false
-		}
-		if b := r.SentAt + w.bound(r); b > maxB {
-			maxB = b
-		}
-	}
-	if all || now >= maxB {
-		w.finalSet = true
-		// settle: long enough for every timer of MOSN related to these requests to have fired
-		settle := 70 * time.Second
-		w.S.After(settle, "final", func() { w.final() })
-	}
-}
-
-func (w *Proxy) final() {
-	w.finished = true
-	if w.N.DialsRefused > 0 {
-		w.S.Faults["connect_refused"] += w.N.DialsRefused
-	}
-	if w.N.DialsBlackholed > 0 {
-		w.S.Faults["connect_blackhole"] += w.N.DialsBlackholed
-	}
-	w.checkAll()
-}
-
-func (w *Proxy) Done() bool { return w.finished }
-
-// Nontrivial: at least two requests overlapped in time or a fault fired.
-func (w *Proxy) Nontrivial() bool {
-	for _, n := range w.S.Faults {
-		if n > 0 {
-			return true
-		}
-	}
-	for i, a := range w.H.Reqs {
-		for _, b := range w.H.Reqs[i+1:] {
-			if a.SentAt == 0 || b.SentAt == 0 || len(a.Replies) == 0 || len(b.Replies) == 0 {
-				continue
+func (w *Proxy) setupH1Clients() {
+	s, ch, p := w.S, w.S.Ch, w.P
+	reqIdx := 0
+	for ci := 0; ci < p.NConns; ci++ {
+		cl := peers.NewH1Client(s, w.H, fmt.Sprintf("cl%d", ci))
+		w.h1clients = append(w.h1clients, cl)
+		seg := p.SegMode
+		cl.Connect = func() *sim.Conn {
+			c := w.N.Connect(w.lisAddr, cl.Name, cl)
+			if c != nil {
+				c.SegMode = seg
 			}
-			if a.SentAt <= b.Replies[0].At && b.SentAt <= a.Replies[0].At {
-				return true
+			return c
+		}
+		t0 := time.Duration(ch.Pick("work", "connat", 5)) * time.Millisecond
+		t := t0
+		for k := 0; k < p.ReqsPerConn; k++ {
+			reqIdx++
+			t += pickFrom(ch, "work", "gap", []time.Duration{0, 0, time.Millisecond, 10 * time.Millisecond, 100 * time.Millisecond})
+			tok := fmt.Sprintf("%016x", sim.Mix(ch.Seed^0x746f6b656e, uint64(reqIdx)))
+			r := &peers.ReqRec{Token: tok, Extra: map[string]string{}}
+			nAtt := 1 + p.NumRetries
+			if nAtt > 4 {
+				nAtt = 4
+			}
+			for a := 0; a < nAtt; a++ {
+				r.Script = append(r.Script, w.drawAction(ch))
+			}
+			m := &peers.H1Msg{IsReq: true}
+			m.Method = pickFrom(ch, "work", "method", []string{"POST", "GET", "PUT", "DELETE"})
+			m.Target = pickFrom(ch, "work", "target", h1Targets)
+			r.Method, r.Target = m.Method, m.Target
+			m.Headers = []peers.KV{{K: "Host", V: "svc.test"}, {K: "X-Tok", V: tok}, {K: "User-Agent", V: "verif/1"}, {K: "Content-Type", V: "application/x-verif"}}
+			for x := ch.Pick("work", "nhdr", 4); x > 0; x-- {
+				m.Headers = append(m.Headers, peers.KV{K: fmt.Sprintf("X-K%d", x), V: hex.EncodeToString(ch.Bytes("work", 1+ch.Pick("work", "hl", 20)))})
+			}
+			if m.Method == "POST" || m.Method == "PUT" {
+				bl := bodyLen(ch, p.BigBodies)
+				body := append([]byte(tok), ch.Bytes("work", min(bl, 64))...)
+				for len(body) < len(tok)+bl {
+					body = append(body, byte('a'+len(body)%26))
+				}
+				m.Body = body
+				m.Chunked = ch.Chance("work", "chunked", 1, 4)
+			}
+			r.Frame = peers.BuildH1(m)
+			r.HReq = m
+			w.H.Add(r)
+			w.sendsPending++
+			tt := t
+			s.At(tt, fmt.Sprintf("send:req#%d", r.Idx), func() {
+				w.sendsPending--
+				cl.Enqueue(r)
+			})
+			if tt > w.lastSend {
+				w.lastSend = tt
 			}
 		}
+		if p.ClientLeaves && ch.Chance("work", "leave", 1, 2) {
+			lt := t0 + time.Duration(ch.Pick("work", "leaveat", 600))*time.Millisecond
+			rst := ch.Bool("work", "leaverst")
+			s.At(lt, "leave:"+cl.Name, func() { s.Fault("client_leaves"); cl.Leave(rst) })
+		}
 	}
-	return false
 }
 
-// XSites are the exploration yield points in /repo (build tag verif).
-var XSites = []string{"x:proxy.timer.global.cas", "x:proxy.timer.pertry.cas", "x:proxy.upstream.onreceive.cas"}
+var _ = strings.ToLower
